@@ -4,6 +4,9 @@
 (* a run of LegacyFlight in which every per-point predicate of property C02    *)
 (* holds.                                                                      *)
 EXTENDS LegacyFlight, Json, IOUtils, TLCExt
+\* BuilderUse: the trace of a flight is a function of the mission and the performance model; the builder object that flies
+\* it may be new or may have just flown the return leg of the same route (the harness alternates) - the origin of THIS
+\* flight is where it starts and every position lies on ITS great circle
 
 AllTraces == ndJsonDeserialize(IOEnv.TRACE_FILE)
 ASSUME \A i \in 1..Len(AllTraces) : TLCSet(i, 0)
